@@ -4,6 +4,7 @@ quantities.
 """
 
 import numpy as np
+from scipy.optimize import brentq
 from .grid import Grid
 
 
@@ -194,6 +195,48 @@ class Grid3Scales(Grid):
         ) / abs(
             2 * ratioPointsWall * tailLengthOutside - wallThickness * (1 + 2 * smoothing)
         )
+
+    def compactify(
+            self,
+            z: np.ndarray, # pylint: disable=invalid-name
+            pz: np.ndarray, # pylint: disable=invalid-name
+            pp: np.ndarray, # pylint: disable=invalid-name
+            ) -> tuple[np.ndarray, ...]:
+        r"""
+        Transforms coordinates to [-1, 1] interval (inverse of decompactify).
+        The three-scale position map has no closed-form inverse; it is strictly
+        increasing, so it is inverted numerically, point by point.
+        """
+        _, pzCompact, ppCompact = super().compactify(z, pz, pp)
+
+        def positionMap(chi: float) -> float:
+            return float(
+                self.decompactify(np.array(chi), np.array(0.0), np.array(0.0))[0]
+            )
+
+        # The bracket stops short of chi=+-1, where the map diverges
+        # logarithmically; positions beyond it are mapped to the end points.
+        chiMin, chiMax = -1.0 + 1e-10, 1.0 - 1e-10
+        zMin, zMax = positionMap(chiMin), positionMap(chiMax)
+
+        def invert(target: float) -> float:
+            if target <= zMin:
+                return -1.0
+            if target >= zMax:
+                return 1.0
+            return float(
+                brentq(
+                    lambda chi: positionMap(chi) - target,
+                    chiMin,
+                    chiMax,
+                    xtol=1e-16,
+                    rtol=4 * np.finfo(float).eps,
+                )
+            )
+
+        zCompact = np.vectorize(invert, otypes=[float])(np.asarray(z, dtype=float))
+
+        return zCompact, pzCompact, ppCompact
 
     def decompactify(
             self,
